@@ -562,7 +562,8 @@ def gen_cause(rng):
 
     cause = rng.choice(['timeout', 'cancel', 'none'])
     noise = [rng.choice(['cancel_other', 'early_lifetime', 'heartbeat',
-                         'unknown_cmd', 'cancel_other_list'])
+                         'unknown_cmd', 'cancel_other_list', 'cancel_nobody',
+                         'cancel_other_str'])
              for _ in range(rng.randint(0, 4))]
     kinds = [None, None, 'plain', 'plain', 'utf8', 'latin1', 'binary', 'cut',
              'empty']
@@ -635,6 +636,13 @@ def run_cause(case, res, workdir):
                 a._control_cb(rpc.CONTROL_PUBSUB, {'cmd': 'cancel_pilots',
                               'arg': {'uids': ['pilot.0001', 'pilot.00001',
                                                'pilot.000']}})
+            elif n == 'cancel_nobody':
+                # what a pilot manager without pilots sends when it is closed
+                a._control_cb(rpc.CONTROL_PUBSUB, {'cmd': 'cancel_pilots',
+                              'arg': {'uids': []}})
+            elif n == 'cancel_other_str':
+                a._control_cb(rpc.CONTROL_PUBSUB, {'cmd': 'cancel_pilots',
+                              'arg': {'uids': 'pilot.0001'}})
             elif n == 'early_lifetime':
                 clk.now = a._starttime + case['runtime'] * 60 - 1
                 a._check_lifetime()
